@@ -70,4 +70,21 @@ impl ResolveRegistry {
 
         resolved
     }
+
+    /// Ids currently held by the registry with the kind of their entry
+    /// (test-only instrumentation).
+    #[cfg(feature = "verif")]
+    pub fn verif_entries(&self) -> Vec<(u32, &'static str)> {
+        let lock = self.0.lock().expect("Registry Mutex poisoned");
+        lock.iter()
+            .map(|(id, entry)| {
+                let kind = match entry {
+                    ResolveSerialized::Never => "never",
+                    ResolveSerialized::Once(_) => "once",
+                    ResolveSerialized::Many(_) => "many",
+                };
+                (u32::try_from(id).expect("EffectId overflow"), kind)
+            })
+            .collect()
+    }
 }
